@@ -1,0 +1,22 @@
+//go:build verif
+
+// Package verifhook provides named hook points for external verification harnesses.
+package verifhook
+
+import "sync/atomic"
+
+type hookFn func(name string, args ...string)
+
+var current atomic.Value // of hookFn
+
+// Set installs the callback invoked at every hook point (nil removes it).
+func Set(f func(name string, args ...string)) {
+	current.Store(hookFn(f))
+}
+
+// Point marks a named point in the code and calls the installed callback, if any.
+func Point(name string, args ...string) {
+	if f, ok := current.Load().(hookFn); ok && f != nil {
+		f(name, args...)
+	}
+}
